@@ -34,3 +34,11 @@ def all_units():
 ASSUMED_CONTRACTS = [
     "pool.BaseTaskPool._pop_ended_meta_tasks: removes exactly the done meta tasks from the per-group sets and returns them (assumed; body not verified: nested loops over a dict of sets mutated during iteration)",
 ]
+
+
+# obligations established by exhaustive enumeration of a finite domain with run-time contracts on the real functions
+# (run under /venv/bin/python); they are merged into the property's obligation list with their own backend label
+NATIVE_SOURCES = {
+    "C16": ["replay/control_enum.py"],
+    "C17": ["replay/control_enum.py"],
+}
